@@ -71,7 +71,7 @@ func exhaustive(alphabet []string, maxLen int, f func([]byte)) int {
 
 // hostile is the marker-rich byte set used for damage and random generation.
 var hostile = []string{">", "-", "+", "*", "_", "#", "`", "~", "=", "[", "]", "(", ")", "<", ">", "!", "\\", "&", "\"", "'", ":",
-	" ", "\t", "\n", "\r", "\x00", "\x80", "\xc3", "\xff", "a", "b", "1", ".", "/", ";", "é", " ", "  \n", "\r\n", "\n\n", "    ", "|", "?", "%", "@", "x", "\f", "\v", "\u00a0", "\u2003", "\u0085", "\f\n", "\u00a0\n"}
+	" ", "\t", "\n", "\r", "\x00", "\x80", "\xc3", "\xff", "a", "b", "1", ".", "/", ";", "é", " ", "  \n", "\r\n", "\n\n", "    ", "|", "?", "%", "@", "x", "\ufeff", "\f", "\v", "\u00a0", "\u2003", "\u0085", "\f\n", "\u00a0\n"}
 
 // fragments: tricky pieces whose products exercise multi-line constructs inside containers etc.
 var fragments = []string{
@@ -190,20 +190,23 @@ func (s *inputSource) wrap(doc []byte) []byte {
 // stretchTemplates: constructs with one position (%s) that is filled with long runs, to reach every
 // length-related limit and fixed-size buffer in the code (tag names, entity names, schemes, labels, digits, fences).
 var stretchTemplates = []string{
-	"<%s>", "</%s>", "<%s a=\"b\">", "<a %s=\"b\">", "<a b=\"%s\">", "<div>\n<%s>\n", "&%s;", "&#%s;", "&#x%s;", "<%s:x>", "<a@%s.c>", "<a@b.%s>",
+	"<%s>", "</%s>", "<%s a=\"b\">", "<a %s=\"b\">", "<a b=\"%s\">", "<div>\n<%s>\n", "&%s;", "&#%s;", "&#x%s;", "<%s:x>", "<a@%s.c>", "<a@b.%s>", "<%s@b.c>", "<a@b.c.%s.d.e>",
 	"[%s]", "[a](%s)", "[a](/u \"%s\")", "[%s]: /u\n\n[%s]", "```%s\nx\n```\n", "%s. x", "#%s", "%s", "*%s*", "`%s`", "> %s", "- %s\n  %s",
 }
 
 // stretched yields every stretch template filled with runs of one character at lengths around powers of two
 // (and around 1000 for link labels). Deterministic.
 func stretched(f func([]byte)) {
-	chars := []string{"A", "a", "1", "-", "é", "aB"}
+	chars := []string{"A", "a", "1", "-", "é", "aB", "\u0390"}
 	lengths := []int{31, 32, 33, 34, 63, 64, 65, 255, 256, 257}
 	for _, t := range stretchTemplates {
 		for _, c := range chars {
 			ls := lengths
 			if strings.HasPrefix(t, "[%s]") {
 				ls = append(append([]int(nil), lengths...), 998, 999, 1000, 1001)
+			}
+			if c == "\u0390" && !strings.HasPrefix(t, "[%s]") {
+				continue // a character whose case fold is three times as long: labels only
 			}
 			for _, n := range ls {
 				run := strings.Repeat(c, (n+len(c)-1)/len(c))[:n]
@@ -315,6 +318,12 @@ func nulInjected(f func([]byte)) {
 		}
 		for i := 0; i <= len(fr); i++ {
 			f([]byte(fr[:i] + "\x00" + fr[i:] + "\n"))
+			if i%2 == 0 {
+				f([]byte(fr[:i] + "\x00\x00" + fr[i:] + "\n")) // adjacent NULs: the offset into the replacement character wraps
+			}
+			if i+2 <= len(fr) {
+				f([]byte(fr[:i] + "\x00" + fr[i:i+1] + "\x00" + fr[i+1:] + "\n\n[a]\n")) // separated NULs: a new run must start at offset 0
+			}
 			if i%3 == 0 {
 				f([]byte(fr[:i] + "\xff" + fr[i:] + "\n\n[a]\n"))
 			}
@@ -326,7 +335,7 @@ func nulInjected(f func([]byte)) {
 // that matter to URI normalisation (pass-through, percent sign, hex and non-hex digits, space, non-ASCII, a reserved
 // character that must be encoded).
 func uriDestinations(f func([]byte)) {
-	exhaustive([]string{"a", "%", "4", "G", " ", "é", "["}, 4, func(d []byte) {
+	exhaustive([]string{"a", "%", "4", "G", " ", "é", "[", "\xff", "\xc3"}, 4, func(d []byte) {
 		if len(d) == 0 {
 			return
 		}
@@ -337,12 +346,74 @@ func uriDestinations(f func([]byte)) {
 	})
 }
 
+// tagPairs yields two adjacent raw HTML tags for every pair of names from a list that mixes allowed and GFM-rejected
+// elements, in lower, upper and mixed case, inline and as an HTML block; plus each name followed by every byte that
+// ends a tag name for an HTML tokenizer (space, tab, LF, form feed, '/', '>').
+func tagPairs(f func([]byte)) {
+	names := []string{"strong", "script", "table", "title", "pre", "xmp", "b", "em", "div", "style", "iframe", "textarea", "noembed", "a"}
+	var forms []string
+	for _, n := range names {
+		forms = append(forms, n, strings.ToUpper(n), strings.ToUpper(n[:1])+n[1:])
+	}
+	for _, a := range forms {
+		for _, b := range forms {
+			f([]byte("x <" + a + "><" + b + "> y\n"))
+			f([]byte("<div>\n<" + a + "><" + b + ">\n"))
+		}
+	}
+	for _, a := range forms {
+		for _, end := range []string{" ", "\t", "\n", "\f", "/", ">", "\f>", " x=y>", "\fsrc=x>"} {
+			f([]byte("<div><" + a + end + "\n"))
+			f([]byte("<!-- c --> <" + a + end + "\n"))
+		}
+	}
+}
+
+// bigTrees yields documents whose trees are wide or deep enough to outgrow any fixed-size traversal stack or buffer:
+// long paragraphs, long lists, deep quotes and lists, many inline nodes in one paragraph.
+func bigTrees(f func([]byte)) {
+	f([]byte(strings.Repeat("line of text\n", 150)))
+	f([]byte(strings.Repeat("- item\n", 300)))
+	f([]byte(strings.Repeat("1. item\n\n", 140)))
+	f([]byte(strings.Repeat("> ", 140) + "deep\n"))
+	var sb strings.Builder
+	for i := 0; i < 40; i++ {
+		sb.WriteString(strings.Repeat("  ", i) + "- l\n")
+	}
+	f([]byte(sb.String()))
+	f([]byte(strings.Repeat("*a* `b` [c](/d) ", 90) + "\n"))
+	f([]byte(strings.Repeat("**", 70) + "x" + strings.Repeat("**", 70) + "\n"))
+	f([]byte(strings.Repeat("[", 140) + "a" + strings.Repeat("](/u)", 140) + "\n"))
+}
+
+// rawPieces yields inline raw HTML (tags, comments, processing instructions, declarations, CDATA) broken across lines
+// at every white-space position, alone and inside a block quote, a list item and both.
+func rawPieces(f func([]byte)) {
+	raws := []string{"<a href='y' title=\"z\">", "<!-- a b <script> -->", "<?pi a b?>", "<!DOCTYPE a b>", "<![CDATA[a b <xmp>]]>", "</b >", "<b c d='e f'>"}
+	for _, r := range raws {
+		for i := 0; i < len(r); i++ {
+			if r[i] != ' ' {
+				continue
+			}
+			doc := "x " + r[:i] + "\n" + r[i+1:] + " y\n"
+			f([]byte(doc))
+			body := strings.TrimSuffix(doc, "\n")
+			f([]byte("> " + strings.ReplaceAll(body, "\n", "\n> ") + "\n"))
+			f([]byte("1. " + strings.ReplaceAll(body, "\n", "\n   ") + "\n"))
+			f([]byte("- > " + strings.ReplaceAll(body, "\n", "\n  > ") + "\n"))
+		}
+	}
+}
+
 // structured yields the deterministic structured families shared by the input sets of most checks.
 func (s *inputSource) structured(thorough bool, f func([]byte)) {
 	nestedInlines(map[bool]int{false: 3, true: 4}[thorough], f)
 	linkPieces(f)
 	dupDefinitions(f)
 	uriDestinations(f)
+	tagPairs(f)
+	rawPieces(f)
+	bigTrees(f)
 	nulInjected(f)
 	s.lineProducts(map[bool]int{false: 4000, true: 120000}[thorough], func(d []byte) {
 		f(d)
